@@ -28,7 +28,8 @@ META = {
              'or, little / big endian), labels over the whole uint64 range'
              '; reader_big: more than a million triangles with one out-of-'
              'range index at the head / middle / tail / end.'
-             " Round 12: GIfTI point sets stored as INT32 / UINT8 (coordinates of several metres)."),
+             " Round 12: GIfTI point sets stored as INT32 / UINT8 (coordinates of several metres)."
+             " Round 18: link-mesh-fragments run again with a corrected table."),
     "trusted_base": ["vlib/refs/mesh_spec.py (struct-based, from the format "
                      "text)", "vlib/refs/vtk_grammar.py (from memory of "
                      "neuroglancer's vtk/parse.ts)", "nibabel GIFTI writer"],
@@ -726,6 +727,34 @@ def check_links(ctx, case):
             if got != {"fragments": list(names)}:
                 ctx.fail("link file %s contains %r, expected fragments %r" % (
                     fn, got, names))
+        # the command is run again with a corrected table (one more fragment
+        # for every label): either it refuses (the files exist), or - if it
+        # reports success - the files list exactly the new fragments
+        table2 = [(lab, list(names) + ["added_%d" % lab])
+                  for lab, names in case["table"]]
+        with open(csv_path, "w", newline="") as f:
+            w = csv.writer(f)
+            for lab, names in table2:
+                w.writerow([lab] + list(names))
+        try:
+            rc2 = lmf.main(["link-mesh-fragments", csv_path, dest]
+                           + (["--no-colon-suffix"] if case["no_colon"]
+                              else []))
+        except SystemExit as exc:
+            rc2 = exc.code if isinstance(exc.code, int) else 1
+        except Exception as exc:
+            from vlib.runner import _from_repo
+            if not _from_repo(exc):
+                raise
+            rc2 = 1       # an uncaught error ends the command: a refusal
+        if not rc2 and table2:
+            for lab, names in table2:
+                fn = ("%d" % lab) + ("" if case["no_colon"] else ":0")
+                got = json.load(open(os.path.join(mdir, fn)))
+                if got != {"fragments": list(names)}:
+                    ctx.fail("second run with a corrected table reported "
+                             "success, but link file %s contains %r, the "
+                             "table gives %r" % (fn, got, names))
     finally:
         ctx.rmtree(d)
 
